@@ -4,7 +4,10 @@ use crate::common::udpendpoint::UDPEndpoint;
 use crate::common::{alc, fdtinstance::FdtInstance, lct};
 use crate::{receiver::writer::ObjectMetadata, tools};
 use crate::{receiver::writer::ObjectWriter, tools::error::Result};
+#[cfg(not(feature = "ypo_flute_verif"))]
 use std::time::Instant;
+#[cfg(feature = "ypo_flute_verif")]
+use crate::verif::clock::Instant;
 use std::{cell::RefCell, rc::Rc, time::SystemTime};
 
 #[derive(Clone, Copy, PartialEq, Debug)]
